@@ -53,7 +53,7 @@ DriftInfo(e) ==
     /\ (IF e.first = "+-2" THEN TRUE ELSE RecordDrift(tid, l, "first line is not +-2"))
     /\ (IF [i \in 1..Len(it.blocks) |-> it.blocks[i].name] = Tail(CodeBlockNames(Case.kind, Case.sc))
         THEN TRUE ELSE RecordDrift(tid, l, "block order differs from INFO ADMIN VIEWS + configured sidecar order"))
-    /\ (IF SidecarAsCoded(it, Case.sc) THEN TRUE ELSE RecordDrift(tid, l, "sidecar lines differ from the coded pipeline"))
+    /\ (IF SidecarAsCoded(it, Case.kind, Case.sc) THEN TRUE ELSE RecordDrift(tid, l, "sidecar lines differ from the coded pipeline"))
 
 JudgeDoc(e) == IF LenOrMarker(e.first, e.bodylen, SizeOfCase) THEN "ok" ELSE "LenOrMarker"
 
